@@ -128,6 +128,44 @@ theorem augmentLoop_eqK (reg : Registry) : ∀ (fuel : Nat) (mods : Array Nat) (
     unfold augmentLoop augmentLoopK
     simp only [augmentPass_eqK, ih]
 
+def augmentLoopNK (reg : Registry) : (fuel : Nat) → Array Nat → PState → Array Nat × PState × Nat
+  | 0, mods, s => (mods, s, 0)
+  | fuel + 1, mods, s =>
+    if mods.isEmpty then (mods, s, 0) else
+    let (mods, processed, s) := augmentPassK reg (mods.size + 1) mods 0 0 s
+    if processed == 0 then (mods, s, 0) else
+    let (mods, s, applied) := augmentLoopNK reg fuel mods s
+    (mods, s, processed + applied)
+
+theorem augmentLoopN_eqK (reg : Registry) : ∀ (fuel : Nat) (mods : Array Nat) (s : PState),
+    augmentLoopN reg fuel mods s = augmentLoopNK reg fuel mods s := by
+  intro fuel
+  induction fuel with
+  | zero => intro mods s; rfl
+  | succ fuel ih =>
+    intro mods s
+    unfold augmentLoopN augmentLoopNK
+    simp only [augmentPass_eqK, ih]
+
+/-- The retry rounds (`Model.leftoverRounds`), evaluable. -/
+def leftoverRoundsK (reg : Registry) (fuel : Nat) : (n : Nat) → Array Nat → PState → Array Nat × PState
+  | 0, mods, s => (mods, s)
+  | n + 1, mods, s =>
+    let (mods, s, applied) := augmentLoopNK reg fuel mods s
+    if applied == 0 then (mods, s) else
+    leftoverRoundsK reg fuel n mods
+      { s with forest := { trees := s.forest.trees.map fun (i, e) => (i, fixChoice e) } }
+
+theorem leftoverRounds_eqK (reg : Registry) (fuel : Nat) : ∀ (n : Nat) (mods : Array Nat) (s : PState),
+    leftoverRounds reg fuel n mods s = leftoverRoundsK reg fuel n mods s := by
+  intro n
+  induction n with
+  | zero => intro mods s; rfl
+  | succ n ih =>
+    intro mods s
+    unfold leftoverRounds leftoverRoundsK
+    simp only [augmentLoopN_eqK, ih]
+
 section Stages
 variable (reg : Registry) (opts : Opts) (plug : Plug)
 
@@ -139,14 +177,23 @@ theorem afterLoop_eqK : afterLoop reg opts plug = afterLoopK reg opts plug := by
   unfold afterLoop afterLoopK
   rw [augmentLoop_eqK]
 
+def afterRoundsK : Array Nat × PState :=
+  leftoverRoundsK reg ((pending0 reg opts plug).foldl (fun n p => n + p.2.length) 0 + 2)
+    ((pending0 reg opts plug).foldl (fun n p => n + p.2.length) 0 + 2)
+    (afterLoopK reg opts plug).1 (fixAll (afterLoopK reg opts plug).2)
+
+theorem afterRounds_eqK : afterRounds reg opts plug = afterRoundsK reg opts plug := by
+  unfold afterRounds afterRoundsK
+  rw [leftoverRounds_eqK, afterLoop_eqK]
+
 def leftoverPassK : PState × Nat :=
-  (afterLoopK reg opts plug).1.foldl (fun (acc : PState × Nat) id =>
+  (afterRoundsK reg opts plug).1.foldl (fun (acc : PState × Nat) id =>
     let (s, p, _) := augmentTreeK reg id true acc.1
-    (s, acc.2 + p)) (fixAll (afterLoopK reg opts plug).2, 0)
+    (s, acc.2 + p)) ((afterRoundsK reg opts plug).2, 0)
 
 theorem leftoverPass_eqK : leftoverPass reg opts plug = leftoverPassK reg opts plug := by
   unfold leftoverPass leftoverPassK
-  simp only [afterLoop_eqK, augmentTree_eqK]
+  simp only [afterRounds_eqK, augmentTree_eqK]
 
 def preDevK : PState :=
   if (leftoverPassK reg opts plug).2 > 0 then fixAll (leftoverPassK reg opts plug).1 else (leftoverPassK reg opts plug).1
@@ -161,12 +208,12 @@ theorem processAll_errors_K (h1 : stage1Errs reg plug = []) (h2 : forestErrs (fo
     (processAll reg opts plug).errors =
       canonErrs (forestErrs (preDevK reg opts plug).forest ++ (devStage reg opts plug (preDevK reg opts plug).forest).2.1) := by
   rw [processAll_eq, h1, h2, preDev_eqK]
-  rfl
+  simp only [List.isEmpty_nil, Bool.not_true, Bool.false_eq_true, if_false]
 
 theorem processAll_forest_K (h1 : stage1Errs reg plug = []) (h2 : forestErrs (forest0 reg opts plug) = []) :
     (processAll reg opts plug).forest = (devStage reg opts plug (preDevK reg opts plug).forest).1 := by
   rw [processAll_eq, h1, h2, preDev_eqK]
-  rfl
+  simp only [List.isEmpty_nil, Bool.not_true, Bool.false_eq_true, if_false]
 
 end Stages
 
